@@ -15,6 +15,7 @@ import (
 	"github.com/evolbioinfo/goalign/align"
 	"github.com/evolbioinfo/goalign/io/fasta"
 
+	"verif/lib/conc"
 	"verif/lib/gen"
 	"verif/lib/h"
 	"verif/lib/mon"
@@ -1841,6 +1842,7 @@ func main() {
 	}
 	mon.Floor("long:ReverseComplement", 6)
 	mon.Floor("long:Unalign", 6)
+	mon.Floor("concurrent:calls", 500)
 	mon.Main("C06", []mon.Sub{
 		{Name: "witness", Quick: len(witnesses), Thorough: len(witnesses), Run: runWitness},
 		{Name: "exhaust", Quick: 1225, Thorough: 1225, Run: runExhaust},
@@ -1853,6 +1855,7 @@ func main() {
 		{Name: "history", Quick: 100000, Thorough: 1500000, Run: runHistory},
 		{Name: "names", Quick: 60000, Thorough: 900000, Run: runNames},
 		{Name: "long", Quick: 6, Thorough: 24, Run: runLong},
+		{Name: "concurrent", Quick: 64, Thorough: 1200, Race: true, Run: func(c *mon.Case) { conc.Run(c, "strand") }},
 		{Name: "cli", Quick: 376, Thorough: 3200, Serial: true, Run: runCli},
 	})
 }
